@@ -315,7 +315,7 @@ def prop_of(tag, confl, slice_name=None):
     """the properties a verdict tag belongs to: a declaration lost or torn inside a shared file is both
     a lossless-merge (C05) and a never-lost (C06) matter"""
     if TAG_PROP[tag] is None:
-        return {confl}
+        return {confl, "C06"}          # the same exported set, different bytes: order dependence wherever it shows
     ps = {TAG_PROP[tag]}
     if tag == "C06l_lost" and confl == "C05":
         ps.add("C05")
@@ -323,6 +323,8 @@ def prop_of(tag, confl, slice_name=None):
         ps.add("C06")
     if slice_name == "faults" and tag in ("C11r_missing_file", "C11r_missing_decl", "C06l_lost"):
         ps.add("C17")      # "a failed export is not recorded as done": the repeated export is complete
+    if slice_name == "faults" and tag in ("C11r_missing_decl", "C06l_lost", "C05w_malformed"):
+        ps.add("C05")      # lossless merge: also when an export into the shared file failed and was repeated
     return ps
 
 
